@@ -112,5 +112,20 @@ def install():
         return orig_cv(self, value)
 
     numpy_engine.DataType.coerce_value = coerce_value
+    # (f) Category.coerce_value is `value not in self.categories` — a hash lookup in a pandas Index.  On a symbolic string it is
+    # the membership decision itself (one fork); every other value takes the real path.
+    from pandera.engines import pandas_engine
+    from symx import SymStr
+
+    orig_cat_cv = pandas_engine.Category.coerce_value
+
+    def cat_coerce_value(self, value):
+        if isinstance(value, SymStr):  # (a symbolic string is never null: nulls reach coerce_value as real nan/None)
+            if not any(bool(value == c) for c in self.categories):
+                raise TypeError("value cannot be coerced to the categorical type")
+            return value
+        return orig_cat_cv(self, value)
+
+    pandas_engine.Category.coerce_value = cat_coerce_value
     REPORT.update(get_backend_types=n_gbt, dispatch_entries=n_disp, pd_globals=n_pd, is_bool=n_isbool, coerce_value=1)
     return REPORT
